@@ -371,6 +371,10 @@ theorem C05_translator_cache (pins : List Int â†’ List Int) (norm : Option Int â
   intro op _
   cases op <;> rfl
 
+/-- the re-check the theorem above rests on is in the code (both branches of `Query._get_translator`: function vartypes, pinned
+    values with `pop`; regenerated from core.py) -/
+theorem C05_translator_hit_rechecked : CacheKeys.translatorHitRechecked = true := by decide
+
 /-- without the re-check the key alone is not enough as soon as one parameter is pinned -/
 theorem C05_translator_needs_recheck :
     âˆƒ (i j : TrIn), i.key = j.key âˆ§ trCompute (fun _ => [0]) id j â‰  trCompute (fun _ => [0]) id i :=
